@@ -82,15 +82,16 @@ theorem tlv_length (tag : UInt8) (c : Bytes) : (tlv tag c).length ≤ c.length +
 /-- messages within the proxy's size limit -/
 def Small (m : Msg) : Prop :=
   m.message.length ≤ 200000 ∧ m.realm.length ≤ 1000 ∧
-  (match m.flags with | some f => f < 128 | none => True)
+  (match m.flags with | some f => intOk f = true ∧ f.length ≤ 8 | none => True)
 
-theorem flagsPart_length (fl : Option Nat) : (flagsPart fl).length ≤ 11 := by
+theorem flagsPart_length (fl : Option Bytes) (h : match fl with | some f => f.length ≤ 8 | none => True) :
+    (flagsPart fl).length ≤ 18 := by
   cases fl with
   | none => simp [flagsPart]
   | some f =>
-    have a := tlv_length 0x02 [u8 f]
-    have b := tlv_length 0xA2 (tlv 0x02 [u8 f])
-    simp at a
+    have a := tlv_length 0x02 f
+    have b := tlv_length 0xA2 (tlv 0x02 f)
+    simp only at h
     simp only [flagsPart]; omega
 
 theorem realmPart_length (realm : Bytes) (h : realm.length ≤ 1000) : (realmPart realm).length ≤ 1010 := by
@@ -101,27 +102,27 @@ theorem realmPart_length (realm : Bytes) (h : realm.length ≤ 1000) : (realmPar
     have b := tlv_length 0xA1 (tlv 0x1B realm)
     omega
 
-theorem decode_flags (fl : Option Nat) (msg realm : Bytes)
-    (hf : match fl with | some f => f < 128 | none => True) :
+theorem decode_flags (fl : Option Bytes) (msg realm : Bytes)
+    (hf : match fl with | some f => intOk f = true ∧ f.length ≤ 8 | none => True) :
     (if flagsPart fl = [] then some (⟨msg, realm, none⟩ : Msg)
       else match parseTLV 0xA2 (flagsPart fl) with
         | some (c, []) =>
           match whole 0x02 c with
-          | some [f] => if f < 128 then some ⟨msg, realm, some f.toNat⟩ else none
-          | _ => none
+          | some f => if intOk f then some ⟨msg, realm, some f⟩ else none
+          | none => none
         | _ => none) = some ⟨msg, realm, fl⟩ := by
   cases fl with
   | none => simp [flagsPart]
   | some f =>
-    have hf' : f < 128 := hf
-    have e : tlv 0xA2 (tlv 0x02 [u8 f]) ≠ [] := by simp [tlv]
+    obtain ⟨hok, hlen⟩ : intOk f = true ∧ f.length ≤ 8 := hf
+    have e : tlv 0xA2 (tlv 0x02 f) ≠ [] := by simp [tlv]
     simp only [flagsPart, e, if_false]
-    have := parseTLV_tlv 0xA2 (tlv 0x02 [u8 f]) (by have := tlv_length 0x02 [u8 f]; simp at this; omega) []
+    have := parseTLV_tlv 0xA2 (tlv 0x02 f) (by have := tlv_length 0x02 f; omega) []
     simp only [List.append_nil] at this
     rw [this]
     simp only
-    rw [whole_tlv 0x02 [u8 f] (by simp)]
-    simp [u8_lt128 f hf', u8_toNat f (by omega)]
+    rw [whole_tlv 0x02 f (by omega)]
+    simp [hok]
 
 /-- **DER round trip**: decoding what a conforming client encodes gives back the message, realm
     and locator hint. -/
@@ -132,7 +133,7 @@ theorem decode_encode (m : Msg) (h : Small m) : decode (encode m) = some m := by
   have l1 := tlv_length 0x04 msg
   have l2 := tlv_length 0xA0 (tlv 0x04 msg)
   have l3 := realmPart_length realm h2
-  have l4 := flagsPart_length flags
+  have l4 := flagsPart_length flags (by cases flags with | none => trivial | some f => exact h3.2)
   unfold decode encode
   simp only
   rw [whole_tlv 0x30 _ (by simp only [List.length_append]; omega)]
@@ -149,7 +150,7 @@ theorem decode_encode (m : Msg) (h : Small m) : decode (encode m) = some m := by
       cases flags with
       | none => simp [flagsPart, parseTLV]
       | some f =>
-        have := parseTLV_other 0xA1 0xA2 (tlv 0x02 [u8 f]) [] (by decide)
+        have := parseTLV_other 0xA1 0xA2 (tlv 0x02 f) [] (by decide)
         simpa [flagsPart] using this
     rw [hno]
     simp only
@@ -376,7 +377,11 @@ example : collect 2 [some [1], none] = .reply [1] := by decide
 example : collect 0 [] = .noReply := by decide
 
 /-- non-vacuity: a concrete message round-trips -/
-example : decode (encode ⟨[1, 2, 3], [69, 88], some 7⟩) = some ⟨[1, 2, 3], [69, 88], some 7⟩ := by decide
+example : decode (encode ⟨[1, 2, 3], [69, 88], some [7]⟩) = some ⟨[1, 2, 3], [69, 88], some [7]⟩ := by decide
+/-- a locator hint with bit 31 set (five content octets) is a valid request -/
+example : decode (encode ⟨[1, 2, 3], [69, 88], some [0x00, 0x80, 0, 0, 0]⟩) = some ⟨[1, 2, 3], [69, 88], some [0x00, 0x80, 0, 0, 0]⟩ := by decide
+/-- a non-minimal INTEGER is not -/
+example : decode (encode ⟨[1, 2, 3], [], some [0x00, 0x7F]⟩) = none := by decide
 example : encode ⟨[1, 2, 3], [], none⟩ = [0x30, 7, 0xA0, 5, 0x04, 3, 1, 2, 3] := by decide
 
 end Rdpgw.C20
